@@ -1,0 +1,186 @@
+//! Verification hooks (cargo feature `verif`, off by default).
+//!
+//! Nothing in here changes what the parser computes. It makes the thread-local
+//! parser state observable (`thread_state`), lets a harness choose the memo
+//! table's capacity / eviction policy (`set_packrat_policy`) and lets a harness
+//! install a per-thread callback that is invoked at the points where the
+//! thread-local state is read or written (`set_sched_hook` / `point`).
+
+use crate::*;
+use std::cell::{Cell, RefCell};
+
+/// How the memo table forgets entries.
+#[derive(Clone, Copy, Debug, PartialEq, Eq)]
+pub enum Policy {
+    /// nom-packrat's own behaviour: FIFO with the given capacity (None = unbounded).
+    Fifo(Option<usize>),
+    /// FIFO(1024) as shipped, but additionally the whole table is dropped after every
+    /// `n`-th insertion (n >= 1): a different "which entries were evicted" pattern.
+    FlushEvery(usize),
+    /// FIFO(1024) as shipped, but every lookup whose running index is congruent to
+    /// `r` modulo `m` is answered with a miss although the entry may be present.
+    MissEvery(usize, usize),
+}
+
+#[derive(Clone, Copy, Debug, Default, PartialEq, Eq)]
+pub struct Stats {
+    pub lookups: u64,
+    pub hits: u64,
+    pub inserts: u64,
+    pub evictions: u64,
+    pub flushes: u64,
+    pub forced_misses: u64,
+}
+
+type Key = (&'static str, *const u8, bool);
+type Val = Option<(AnyNode, usize)>;
+
+pub struct Storage {
+    inner: nom_packrat::PackratStorage<AnyNode, bool>,
+    policy: Policy,
+    live: usize,
+    lookups: Cell<u64>,
+    hits: Cell<u64>,
+    forced: Cell<u64>,
+    inserts: u64,
+    evictions: u64,
+    flushes: u64,
+}
+
+impl Storage {
+    fn with_policy(policy: Policy) -> Self {
+        let cap = match policy {
+            Policy::Fifo(c) => c,
+            _ => Some(1024),
+        };
+        Storage {
+            inner: nom_packrat::PackratStorage::new(cap),
+            policy,
+            live: 0,
+            lookups: Cell::new(0),
+            hits: Cell::new(0),
+            forced: Cell::new(0),
+            inserts: 0,
+            evictions: 0,
+            flushes: 0,
+        }
+    }
+
+    fn cap(&self) -> Option<usize> {
+        match self.policy {
+            Policy::Fifo(c) => c,
+            _ => Some(1024),
+        }
+    }
+
+    pub fn get(&self, key: &Key) -> Option<&Val> {
+        point("memo_get");
+        let n = self.lookups.get();
+        self.lookups.set(n + 1);
+        if let Policy::MissEvery(m, r) = self.policy {
+            if m > 0 && (n as usize) % m == r % m {
+                self.forced.set(self.forced.get() + 1);
+                return None;
+            }
+        }
+        let ret = self.inner.get(key);
+        if ret.is_some() {
+            self.hits.set(self.hits.get() + 1);
+        }
+        ret
+    }
+
+    pub fn insert(&mut self, key: Key, value: Val) {
+        point("memo_insert");
+        self.inserts += 1;
+        if let Some(cap) = self.cap() {
+            if self.live >= cap {
+                self.evictions += 1;
+            } else {
+                self.live += 1;
+            }
+        } else {
+            self.live += 1;
+        }
+        self.inner.insert(key, value);
+        if let Policy::FlushEvery(n) = self.policy {
+            if n > 0 && self.inserts % (n as u64) == 0 {
+                self.inner.clear();
+                self.live = 0;
+                self.flushes += 1;
+            }
+        }
+    }
+
+    pub fn clear(&mut self) {
+        self.inner.clear();
+        self.live = 0;
+    }
+}
+
+thread_local!(
+    pub(crate) static PACKRAT_STORAGE: RefCell<Storage> = {
+        RefCell::new(Storage::with_policy(Policy::Fifo(Some(1024))))
+    }
+);
+
+thread_local!(
+    static SCHED_HOOK: Cell<Option<fn(&'static str)>> = Cell::new(None)
+);
+
+/// Re-create this thread's memo table with the given policy. `Fifo(Some(0))` is refused
+/// (nom-packrat underflows on it).
+pub fn set_packrat_policy(policy: Policy) {
+    if let Policy::Fifo(Some(0)) = policy {
+        panic!("verif: capacity 0 is not a configuration of nom-packrat");
+    }
+    PACKRAT_STORAGE.with(|s| *s.borrow_mut() = Storage::with_policy(policy));
+}
+
+pub fn packrat_stats() -> Stats {
+    PACKRAT_STORAGE.with(|s| {
+        let s = s.borrow();
+        Stats {
+            lookups: s.lookups.get(),
+            hits: s.hits.get(),
+            inserts: s.inserts,
+            evictions: s.evictions,
+            flushes: s.flushes,
+            forced_misses: s.forced.get(),
+        }
+    })
+}
+
+pub fn reset_stats() {
+    PACKRAT_STORAGE.with(|s| {
+        let mut s = s.borrow_mut();
+        s.lookups.set(0);
+        s.hits.set(0);
+        s.forced.set(0);
+        s.inserts = 0;
+        s.evictions = 0;
+        s.flushes = 0;
+    });
+}
+
+/// (entries in the memo table, depth of the in-directive stack, keyword-version stack)
+pub fn thread_state() -> (usize, usize, Vec<u8>) {
+    let memo = PACKRAT_STORAGE.with(|s| s.borrow().live);
+    (
+        memo,
+        crate::utils::verif_directive_depth(),
+        crate::utils::verif_version_stack(),
+    )
+}
+
+/// Install (or remove) this thread's scheduling-point callback.
+pub fn set_sched_hook(hook: Option<fn(&'static str)>) {
+    SCHED_HOOK.with(|h| h.set(hook));
+}
+
+#[inline]
+pub(crate) fn point(name: &'static str) {
+    if let Some(h) = SCHED_HOOK.with(|h| h.get()) {
+        h(name);
+    }
+}
